@@ -10,6 +10,7 @@ Init == cur \in [z : Zones, t : Instants, dur : Durs] /\ last = None
 \* time increments divide the next unit
 IncOK(o) == /\ UnitLe(o.sm, o.lg)
             /\ (o.sm \in DateUnits /\ o.inc > 1 => o.lg = o.sm)
+            /\ (o.sm = "nanosecond" => o.inc = 1)
             /\ (o.sm = "hour" => 24 % o.inc = 0 /\ o.inc < 24) /\ (o.sm \in {"minute", "second"} => 60 % o.inc = 0 /\ o.inc < 60)
 RoundAct(o) == last' = [op |-> "round", z |-> cur.z, t |-> cur.t, dur |-> cur.dur, o |-> o, out |-> ZRoundRel(cur.z, cur.t, cur.dur, o.lg, o.sm, o.inc, o.mode)] /\ UNCHANGED cur
 TotalAct(u) == last' = [op |-> "total", z |-> cur.z, t |-> cur.t, dur |-> cur.dur, u |-> u, out |-> ZTotalRel(cur.z, cur.t, cur.dur, u)] /\ UNCHANGED cur
